@@ -13,6 +13,7 @@ import (
 	"github.com/streamingfast/substreams/manifest"
 	pbsubstreams "github.com/streamingfast/substreams/pb/sf/substreams/v1"
 	"github.com/streamingfast/substreams/storage/execout"
+	"github.com/streamingfast/substreams/storage/store"
 	"go.uber.org/zap"
 	"google.golang.org/protobuf/types/known/timestamppb"
 
@@ -54,19 +55,177 @@ func fileCases(tier, mode string) int {
 		return 0
 	}
 	if tier == "thorough" {
-		return 64
+		return 128
 	}
-	return 12
+	return 24
+}
+
+// cutStore fails the FIRST download of every object after cut[name](content) bytes.
+type cutStore struct {
+	dstore.Store
+	mu    *sync.Mutex
+	reads map[string]int
+	cut   func(content []byte) int
+}
+
+type cutRd struct {
+	b    []byte
+	left int
+}
+
+func (r *cutRd) Read(p []byte) (int, error) {
+	if r.left <= 0 {
+		return 0, fmt.Errorf("injected: connection reset while downloading")
+	}
+	if len(p) > r.left {
+		p = p[:r.left]
+	}
+	n := copy(p, r.b)
+	r.b = r.b[n:]
+	r.left -= n
+	return n, nil
+}
+func (r *cutRd) Close() error { return nil }
+
+func (f *cutStore) OpenObject(ctx context.Context, name string) (io.ReadCloser, error) {
+	r, err := f.Store.OpenObject(ctx, name)
+	if err != nil {
+		return nil, err
+	}
+	f.mu.Lock()
+	f.reads[name]++
+	n := f.reads[name]
+	f.mu.Unlock()
+	if n == 1 {
+		b, _ := io.ReadAll(r)
+		r.Close()
+		return &cutRd{b: b, left: f.cut(b)}, nil
+	}
+	return r, nil
+}
+
+func (f *cutStore) SubStore(sub string) (dstore.Store, error) {
+	s, err := f.Store.SubStore(sub)
+	if err != nil {
+		return nil, err
+	}
+	return &cutStore{Store: s, mu: f.mu, reads: f.reads, cut: f.cut}, nil
+}
+
+// entryBoundaries returns the offsets at which a top-level protobuf field of b ends.
+func entryBoundaries(b []byte) []int {
+	var out []int
+	i := 0
+	for i < len(b) {
+		// tag
+		for i < len(b) && b[i]&0x80 != 0 {
+			i++
+		}
+		i++
+		// length (all top-level fields of StoreData are length-delimited)
+		l, sh := 0, uint(0)
+		for i < len(b) {
+			c := b[i]
+			i++
+			l |= int(c&0x7f) << sh
+			sh += 7
+			if c&0x80 == 0 {
+				break
+			}
+		}
+		i += l
+		if i <= len(b) {
+			out = append(out, i)
+		}
+	}
+	return out
+}
+
+// runSnapFile: a store SNAPSHOT file read back through the real Load when the first download dies (on an entry boundary or
+// anywhere) and the retry succeeds: content as written, and the size reported at load == total length of keys and values.
+func runSnapFile(c *fw.Case) {
+	dir, _ := os.MkdirTemp(os.Getenv("VH_SCRATCH"), "sn-")
+	defer os.RemoveAll(dir)
+	base, err := dstore.NewStore(dir, "zst", "zstd", true)
+	if err != nil {
+		panic(err)
+	}
+	onBoundary := (c.Index/2)%2 == 0
+	cutPos := -1
+	cs := &cutStore{Store: base, mu: &sync.Mutex{}, reads: map[string]int{}, cut: func(b []byte) int {
+		if onBoundary {
+			if bs := entryBoundaries(b); len(bs) > 1 {
+				cutPos = bs[c.R.Intn(len(bs)-1)]
+				return cutPos
+			}
+		}
+		cutPos = c.R.Intn(len(b) + 1)
+		return cutPos
+	}}
+	cfg, err := store.NewConfig("s", 5, "h", pbsubstreams.Module_KindStore_UPDATE_POLICY_SET, "string", cs)
+	if err != nil {
+		panic(err)
+	}
+	ctx := context.Background()
+	n := 2 + c.R.Intn(30)
+	want := map[string][]byte{}
+	full := cfg.NewFullKV(zap.NewNop())
+	for i := 0; i < n; i++ {
+		k := fmt.Sprintf("key-%03d", i)
+		v := make([]byte, c.R.Intn(24))
+		c.R.Read(v)
+		want[k] = v
+		full.ApplyDelta(&pbsubstreams.StoreDelta{Operation: pbsubstreams.StoreDelta_CREATE, Key: k, NewValue: v})
+	}
+	file, w, err := full.Save(30)
+	if err == nil {
+		err = w.Write(ctx)
+	}
+	if err != nil {
+		c.Inconclusive("saving the snapshot failed: " + err.Error())
+		return
+	}
+	lf := cfg.NewFullKV(zap.NewNop())
+	wit := map[string]any{"entries": n, "first_download_cut_on_entry_boundary": onBoundary}
+	if err := lf.Load(ctx, file); err != nil {
+		wit["first_download_cut_after_bytes"] = cutPos
+		c.Violation("C18/snapshot-file/load-after-read-retry-failed", "loading a snapshot whose first download attempt was cut (second attempt intact) failed: "+err.Error(), wit)
+		return
+	}
+	wit["first_download_cut_after_bytes"] = cutPos
+	c.Count("snapshot_files_loaded_after_a_cut_download", 1)
+	got := map[string][]byte{}
+	var real uint64
+	lf.Iter(func(k string, v []byte) error { got[k] = v; real += uint64(len(k) + len(v)); return nil })
+	if len(got) != len(want) {
+		c.Violation("C18/snapshot-file/content-differs", fmt.Sprintf("snapshot loaded after a cut first download holds %d keys, %d were written", len(got), len(want)), wit)
+		return
+	}
+	for k, v := range want {
+		if string(got[k]) != string(v) {
+			c.Violation("C18/snapshot-file/content-differs", fmt.Sprintf("snapshot loaded after a cut first download: key %q = %x, written %x", k, got[k], v), wit)
+			return
+		}
+	}
+	if lf.SizeBytes() != real {
+		c.Violation("C18/snapshot-file/size-reported-at-load", fmt.Sprintf("snapshot loaded after a cut first download reports size %d but its keys and values total %d", lf.SizeBytes(), real), wit)
+		return
+	}
+	c.Nontrivial(fmt.Sprintf("snapfile|%d|%d", c.Index, n))
 }
 
 func runFile(c *fw.Case) {
+	if c.Index%2 == 1 {
+		runSnapFile(c)
+		return
+	}
 	dir, _ := os.MkdirTemp(os.Getenv("VH_SCRATCH"), "eo-")
 	defer os.RemoveAll(dir)
 	base, err := dstore.NewStore(dir, "zst", "zstd", true)
 	if err != nil {
 		panic(err)
 	}
-	fs := &retryStore{Store: base, mu: &sync.Mutex{}, seen: map[string]int{}, fail: c.Index%2 == 0}
+	fs := &retryStore{Store: base, mu: &sync.Mutex{}, seen: map[string]int{}, fail: c.Index%4 == 0}
 	mod := &pbsubstreams.Module{Name: "m", Kind: &pbsubstreams.Module_KindMap_{KindMap: &pbsubstreams.Module_KindMap{OutputType: "proto:x.Y"}}}
 	hashes := manifest.NewModuleHashes()
 	cfgs, err := execout.NewConfigs(fs, []*pbsubstreams.Module{mod}, hashes, 10, 0, zap.NewNop())
